@@ -4,6 +4,8 @@ CONSTANTS
     Replies <- MCReplies
     Delays = {"none", "short", "long"}
     Prompts = {"fast", "slow"}
+    Signals = {"none", "one", "stream"}
+    OnEintr = "fail"
     DeadlineFrom = "init"
     EofCheck = "eof"
     WriteMode = "nosignal"
